@@ -62,13 +62,18 @@ Proof. exact write_blocks_iff_full_lemma. Qed.
 
 (* UDP: a payload larger than MTU - IP header - 8 is rejected with EMSGSIZE and
    the kernel is unchanged (in particular nothing is queued); smaller payloads
-   are never rejected for size. *)
+   are never rejected for size.  Both send syscalls: send_to / try_send_to with
+   an explicit destination (Kernel::poll_send_to) and send / try_send of a
+   connected socket (Kernel::poll_send, destination = the stored peer). *)
 Theorem udp_oversize_rejected : forall k fd s pl dst,
-  lookup k fd = Some s -> s_v6 s = v6 (fst dst) ->
-  ((if is_loop (fst dst) then lo_mtu (cfg k) else mtu (cfg k)) - (if v6 (fst dst) then 40 else 20) - 8 < len pl ->
-     k_udp_send_to k fd pl dst = (k, Err EMsgSize)) /\
-  (len pl <= (if is_loop (fst dst) then lo_mtu (cfg k) else mtu (cfg k)) - (if v6 (fst dst) then 40 else 20) - 8 ->
-     snd (k_udp_send_to k fd pl dst) <> Err EMsgSize).
+  lookup k fd = Some s ->
+  let lim := (if is_loop (fst dst) then lo_mtu (cfg k) else mtu (cfg k)) - (if v6 (fst dst) then 40 else 20) - 8 in
+  (s_v6 s = v6 (fst dst) ->
+     (lim < len pl -> k_udp_send_to k fd pl dst = (k, Err EMsgSize)) /\
+     (len pl <= lim -> snd (k_udp_send_to k fd pl dst) <> Err EMsgSize)) /\
+  (s_peer s = Some dst ->
+     (lim < len pl -> k_udp_send k fd pl = (k, Err EMsgSize)) /\
+     (len pl <= lim -> snd (k_udp_send k fd pl) <> Err EMsgSize)).
 Proof. exact udp_oversize_rejected_lemma. Qed.
 
 (* Link to the model that is checked against the implementation: every host
